@@ -37,8 +37,7 @@ RULE = (
 ASSUMPTIONS = [
     "a:xfrm semantics (DrawingML): flipH mirrors the line inside its box, so begin = (x+cx if flipH else x), end the other side",
     "XML is read from the live lxml tree with Clark-name find()/get() written here, never with python-pptx accessors",
-    "member extents of a group = each member's own a:off/a:ext (p:xfrm for graphic frames); an empty subgroup counts as (0,0,0,0)",
-    "the instant after add_group_shape() of an empty subgroup is not checked",
+    "member extents of a group = each member's own a:off/a:ext (p:xfrm for graphic frames); a subgroup that holds no shape at any depth contributes no box",
     "freeform vertices ending in exactly .5 are not generated ('nearest integer' is ambiguous for ties)",
     "ST_Coordinate range -27273042329600..27273042316900 and ST_PositiveCoordinate 0..27273042316900 (dml-main.xsd)",
 ]
@@ -408,6 +407,12 @@ def members(g_el):
     return [c for c in g_el if c.tag in SHAPE_TAGS]
 
 
+def holds_shape(el):
+    """False for a group without a member shape at any depth ("the bounding box of its member shapes, recursively": such a
+    group has no shape to bound and contributes no box to the group it stands in)."""
+    return el.tag != P + "grpSp" or any(holds_shape(c) for c in members(el))
+
+
 def height(el):
     return 0 if el.tag != P + "grpSp" else 1 + max([height(c) for c in members(el)] or [0])
 
@@ -428,6 +433,7 @@ class GroupBuild:
         self.prs, self.slide = new_slide()
         self.groups = []  # GroupShape proxies in creation order (ops refer to them by index)
         self.proxy = {}  # live p:grpSp element -> proxy
+        self.dirty = set()  # groups put out of step with their members by this harness (see group_step)
         self.ops = []
         count_recalcs()
 
@@ -438,7 +444,7 @@ class GroupBuild:
         return 0 if gi < 0 else 1 + sum(1 for _ in self.groups[gi]._element.iterancestors(P + "grpSp"))
 
     def apply(self, op):
-        """-> (element to check from, kind) ; element None = nothing to check (empty subgroup)"""
+        """-> (element to check from, kind)"""
         from pptx.chart.data import CategoryChartData
         from pptx.enum.chart import XL_CHART_TYPE
         from pptx.enum.shapes import MSO_CONNECTOR, MSO_SHAPE, PROG_ID
@@ -458,7 +464,7 @@ class GroupBuild:
                 CALLS["add_group_shape:members-taken-out-of-another-group"] += 1
             self.groups.append(g)
             self.proxy[g._element] = g
-            return (g._element, "group-with-shapes") if op["take"] else (None, "empty-group")
+            return g._element, ("group-with-shapes" if op["take"] else "empty-group")
         x, y, w, h = (Emu(v) for v in op["xywh"])
         if kind == "autoshape":
             s = shapes.add_shape(MSO_SHAPE.RECTANGLE, x, y, w, h)
@@ -488,8 +494,12 @@ class GroupBuild:
         """every ancestor group of `el` (and `el` itself when it is a populated new group)"""
         acc = self.acc
         chain = ([el] if el.tag == P + "grpSp" else []) + list(el.iterancestors(P + "grpSp"))
+        if kind == "empty-group":
+            chain = [g for g in chain if g not in self.dirty]
+        else:
+            self.dirty.difference_update(chain)
         for level, g in enumerate(chain):
-            boxed = [m for m in members(g) if xfrm_of(m) is not None and xfrm_of(m).find(A + "off") is not None and xfrm_of(m).find(A + "ext") is not None]
+            boxed = [m for m in members(g) if holds_shape(m) and xfrm_of(m) is not None and xfrm_of(m).find(A + "off") is not None and xfrm_of(m).find(A + "ext") is not None]
             if not boxed:
                 continue
             want = bbox([read_xfrm(xfrm_of(m))[:4] for m in boxed])  # (a member without a:xfrm has no box of its own to contribute)
@@ -499,7 +509,7 @@ class GroupBuild:
             ch = None if choff is None or chext is None else (int(choff.get("x")), int(choff.get("y")), int(chext.get("cx")), int(chext.get("cy")))
             pr = self.proxy[g]
             api = (int(pr.left), int(pr.top), int(pr.width), int(pr.height))
-            api_want = bbox([(int(m.left), int(m.top), int(m.width), int(m.height)) for m in pr.shapes if None not in (m.left, m.top, m.width, m.height)])
+            api_want = bbox([(int(m.left), int(m.top), int(m.width), int(m.height)) for m in pr.shapes if holds_shape(m._element) and None not in (m.left, m.top, m.width, m.height)])
             key = "group-extents-stale:freeform" if kind == "freeform" else "group-extents:%s%s" % (kind, ":ancestor" if level else "")
             where = "group %d level(s) above the %s just added" % (level + (el.tag != P + "grpSp"), kind)
             if got != want or api != api_want:
@@ -576,14 +586,16 @@ def group_step(b, op, step, tag):
             xf = xfrm_of(ms[step % len(ms)])
             xf.getparent().remove(xf)
             CALLS["members_stripped_of_their_xfrm"] += 1
+            # this group and the groups around it no longer match their members THROUGH THIS HARNESS'S DOING; the next addition
+            # of a shape below them recalculates them - adding an empty sub-group adds nothing to bound and owes no recalculation
+            b.dirty.update([g] + list(g.iterancestors(P + "grpSp")))
     try:
         el, kind = b.apply(op)
     except Exception as e:  # noqa  ("after any additions": an addition to a valid group that raises is no addition)
         b.acc.violation("group-addition-raises:%s" % type(e).__name__, "adding %s raised %s: %s" % (op["op"], type(e).__name__, str(e)[:120]), b.witness())
         raise _Stop()
-    if el is None:
-        CALLS["empty_subgroup_additions_not_checked"] += 1
-        return
+    if kind == "empty-group":
+        CALLS["empty_subgroup_additions_checked"] += 1
     n = b.check(el, kind) if (op["into"] >= 0 or kind == "group-with-shapes") else 0
     if op.get("take_from") is not None:
         b.check(b.groups[op["take_from"]]._element, "group-members-were-taken-from")
